@@ -307,7 +307,14 @@ func newFloatFuncAttr(name string, f func(float64) float64) rel.Attr {
 	})
 }
 
-func parseGrammar(_ context.Context, v rel.Value) (rel.Value, error) {
+func parseGrammar(_ context.Context, v rel.Value) (_ rel.Value, err error) {
+	// The grammar is an arbitrary value; converting and compiling one that is
+	// not the AST of a wbnf grammar panics in many places.
+	defer func() {
+		if r := recover(); r != nil {
+			err = fmt.Errorf("//grammar.parse: invalid grammar: %v", r)
+		}
+	}()
 	astNode := rel.ASTNodeFromValue(v).(ast.Branch)
 	g := wbnf.NewFromAst(astNode)
 	parsers := g.Compile(astNode)
@@ -315,7 +322,12 @@ func parseGrammar(_ context.Context, v rel.Value) (rel.Value, error) {
 		rule := v.String()
 		return rel.NewNativeFunction(
 			fmt.Sprintf("parse(%s)", rule),
-			func(_ context.Context, v rel.Value) (rel.Value, error) {
+			func(_ context.Context, v rel.Value) (_ rel.Value, err error) {
+				defer func() {
+					if r := recover(); r != nil {
+						err = fmt.Errorf("//grammar.parse: cannot parse with rule %s: %v", rule, r)
+					}
+				}()
 				node, err := parsers.Parse(parser.Rule(rule), parser.NewScanner(v.String()))
 				if err != nil {
 					return nil, err
